@@ -35,7 +35,7 @@ PROPS = {
         level="model_checking",
         level_text="bounded model checking by symbolic execution: for every catalogue definition and every input of up to L arbitrary bytes, the real lexer.New + StatefulLexer.Next (rule order, include splicing, Return, Push/Pop, back-references, elision, error cases, span/position bookkeeping) is compared on every feasible path with a reference lexer written from the property statement; the solver decides which byte classes are feasible on each path",
         level_note="trusted: the reference regex matcher that replaces package regexp on symbolic input (validated against the real regexp natively, and every counterexample is replayed against the real regexp before it is reported), the SSA executor (sampled paths replayed natively on every run), z3; bounds: 22 definitions, inputs <= 3 (quick) / <= 4 (thorough) bytes",
-        runs=[dict(pkg="lexer", files=["lexer/zz_verif_stateful.go"], harness="^VH_C03_",
+        runs=[dict(pkg="lexer", files=["lexer/zz_verif_stateful.go", "lexer/zz_verif_lexdefs.go"], harness="^VH_C03_",
                    reach={h: ["error", "tokens"] for h in ["VH_C03_Literal", "VH_C03_Overlap", "VH_C03_PushPop", "VH_C03_Return", "VH_C03_IncludeNested", "VH_C03_Backref"]})],
         bounds=dict(quick="22 catalogue definitions (literals, overlapping rules, classes, ., multi-byte class, anchors/word boundaries, alternation, empty-matching rule, case folding, Push/Pop, Return, Include first/middle/nested, Pop and Return in Root, optional group in a Push rule, back-references incl. missing group and metacharacter group) x all inputs of <= 3 arbitrary bytes (incl. invalid UTF-8)",
                     thorough="same catalogue x all inputs of <= 4 arbitrary bytes"),
@@ -48,7 +48,7 @@ PROPS = {
         level="model_checking",
         level_text="bounded model checking by symbolic execution: token values, offsets, ordering, EOF placement, line/column and filename are asserted from the input alone on every feasible path of the real StatefulLexer.Next for all inputs up to L bytes, plus a unit obligation for Position.Advance from an arbitrary position over an arbitrary span",
         level_note="trusted: as C03; the text/scanner-based lexer is outside the claim (stdlib scanner not encoded); generated lexers are covered by the C05 run",
-        runs=[dict(pkg="lexer", files=["lexer/zz_verif_stateful.go"], harness="^VH_C04_",
+        runs=[dict(pkg="lexer", files=["lexer/zz_verif_stateful.go", "lexer/zz_verif_lexdefs.go"], harness="^VH_C04_",
                    reach={"VH_C04_Advance": ["same-line", "new-line"], "VH_C04_Literal": ["ok", "error"], "VH_C04_Multibyte": ["ok", "error"]})],
         bounds=dict(quick="Position.Advance: any 64-bit start position x any span of <= 4 arbitrary bytes; 9 catalogue definitions x all inputs of <= 3 arbitrary bytes",
                     thorough="Position.Advance: spans <= 5 bytes; inputs <= 4 bytes"),
@@ -60,12 +60,107 @@ PROPS = {
         level="model_checking",
         level_text="bounded model checking by symbolic execution: (1) whole runs from the initial state for all inputs up to L bytes: no panic, non-empty tokens, <= len+1 Next calls, EOF idempotent, Next after an error does not panic; (2) one inductive step of Next from an arbitrary lexer state (any reachable-shaped stack of depth <= 2, arbitrary groups, arbitrary remaining input): no panic and the stack invariant is preserved",
         level_note="trusted: as C03; the inductive step covers histories of any length only for the stack shapes in the bound (depth <= 2, <= 2 groups of <= 1 byte)",
-        runs=[dict(pkg="lexer", files=["lexer/zz_verif_stateful.go"], harness="^VH_C07_",
+        runs=[dict(pkg="lexer/internal/zzverifgen", pkg_name="zzverifgen", files=["gen/zz_verif_gen.go"], harness="^VH_C07_Gen_", generate="c05",
+                   reach={"VH_C07_Gen_Literal": ["eof", "error"], "VH_C07_Gen_PushPop": ["eof", "error"]}),
+              dict(pkg="lexer", files=["lexer/zz_verif_stateful.go", "lexer/zz_verif_lexdefs.go"], harness="^VH_C07_",
                    reach={"VH_C07_Run_Literal": ["eof", "error"], "VH_C07_Run_PushPop": ["eof", "error"], "VH_C07_Step_PushPop": ["token"]})],
-        bounds=dict(quick="12 definitions x inputs <= 3 bytes (whole run); 6 definitions x stack depth <= 2 x <= 2 groups of <= 1 byte x remaining input <= 3 bytes (step)",
+        bounds=dict(quick="runtime lexer: 12 definitions x inputs <= 3 bytes (whole run); generated lexers: 26 definitions x inputs <= 3 bytes (whole run of the emitted code); 6 definitions x stack depth <= 2 x <= 2 groups of <= 1 byte x remaining input <= 3 bytes (step)",
                     thorough="inputs <= 4 bytes"),
-        outside="generated lexers (C05 run); definitions outside the catalogue; termination beyond the instruction budget is reported as inconclusive, not assumed",
+        outside="definitions outside the catalogue; termination beyond the instruction budget is reported as inconclusive, not assumed",
         assumptions=["package regexp replaced by the reference matcher on symbolic input"],
         explanation="No-panic / progress / EOF-idempotence obligations on whole runs and on one inductive step from an arbitrary state.",
     ),
+    "C05": dict(
+        level="translation_validation",
+        level_text="translation validation of the lexer generator's output: the real generator is run on each catalogue definition, the emitted Go source is loaded into the symbolic executor, and for every input of up to L arbitrary bytes the emitted lexer is compared with the runtime lexer (symbol table, token types, values, positions, elision, final EOF, error position, no panic); the only tolerated difference (possessive vs backtracking matching of some rule on that input) is decided per path by the engine's two reference matchers",
+        level_note="trusted: reference matchers (backtracking and possessive) standing in for package regexp on symbolic input, the SSA executor (sampled paths replayed natively through the emitted code), z3; bounds: 25 definitions x inputs <= 3 (quick) / <= 4 (thorough) bytes",
+        runs=[dict(pkg="lexer/internal/zzverifgen", pkg_name="zzverifgen", files=["gen/zz_verif_gen.go"], harness="^VH_C05_", generate="c05",
+                   reach={"VH_C05_Literal": ["tokens", "error"], "VH_C05_Possessive": ["tolerated", "tokens"], "VH_C05_PushPop": ["tokens"]})],
+        bounds=dict(quick="25 definitions of the generator's supported class (one per regexp operator the generator handles + multi-state Push/Pop/Return/Include + Pop/Return in Root) x all inputs of <= 3 arbitrary bytes",
+                    thorough="same definitions x all inputs of <= 4 arbitrary bytes"),
+        outside="definitions outside the catalogue; inputs longer than the bound; back-reference / non-greedy / empty-matching rules (documented as unsupported by the generator)",
+        assumptions=["package regexp replaced by reference matchers on symbolic input; the tolerated-difference predicate is 'possessive and backtracking reference matchers disagree on the span of some rule the runtime lexer tried on this input'"],
+        explanation="The SSA executed for the generated side is the SSA of the code the real generator emitted from the current tree.",
+    ),
 }
+
+
+# ---------------------------------------------------------------------------
+# C05: run the real generator on every catalogue definition and lay the
+# emitted source out as a virtual package inside /repo.
+
+import json as _json
+import os as _os
+import re as _re
+import subprocess as _sp
+
+C05_DEFS = ["Literal", "Overlap", "Classes", "Dot", "Multibyte", "Anchors", "Alternation", "Fold", "PushPop", "String",
+            "Return", "IncludeFirst", "IncludeMiddle", "IncludeNested", "PopInRoot", "ReturnInRoot", "OptionalGroupPush",
+            "Possessive", "Repeat", "EmptyAlt", "NoWordBoundary", "EndAnchors", "FoldClass", "DotAll", "NonASCIILit", "NegClass"]
+
+GENPKG_DIR = "lexer/internal/zzverifgen"
+
+
+def _gen_c05(spec, tier, seed, tmp, REPO, GOENV):
+    verif = _os.path.dirname(_os.path.dirname(_os.path.abspath(__file__)))
+    work = _os.path.join(tmp, "c05")
+    _os.makedirs(work, exist_ok=True)
+    cat_src = open(_os.path.join(verif, "harness", "lexer", "zz_verif_lexdefs.go")).read()
+    names = _re.findall(r"^func vhDef(\w+)\(\) Rules", cat_src, _re.M)
+    defs = [d for d in C05_DEFS if d in names]
+    # 1. dump the definitions as JSON with the real encoder (native test in package lexer)
+    dump = _os.path.join(work, "zz_verif_dump_test.go")
+    open(dump, "w").write('package lexer\n\nimport (\n\t"encoding/json"\n\t"os"\n\t"path/filepath"\n\t"testing"\n)\n\n'
+                          'func TestVDumpDefs(t *testing.T) {\n\tfor name, r := range map[string]Rules{\n'
+                          + "".join('\t\t"%s": vhDef%s(),\n' % (d, d) for d in defs) +
+                          '\t} {\n\t\tdata, err := json.Marshal(r)\n\t\tif err != nil {\n\t\t\tt.Fatal(err)\n\t\t}\n'
+                          '\t\tif err := os.WriteFile(filepath.Join(os.Getenv("VERIF_OUT"), name+".json"), data, 0o644); err != nil {\n\t\t\tt.Fatal(err)\n\t\t}\n\t}\n}\n')
+    ov = _os.path.join(work, "ov_dump.json")
+    _json.dump({"Replace": {_os.path.join(REPO, "lexer", "zz_verif_lexdefs.go"): _os.path.join(verif, "harness", "lexer", "zz_verif_lexdefs.go"),
+                            _os.path.join(REPO, "lexer", "zz_verif_dump_test.go"): dump}}, open(ov, "w"))
+    r = _sp.run(["go", "test", "-vet=off", "-count=1", "-run", "^TestVDumpDefs$", "-overlay", ov, "."],
+                env=dict(GOENV, VERIF_OUT=work), cwd=_os.path.join(REPO, "lexer"), text=True, capture_output=True)
+    if r.returncode != 0:
+        return dict(problem="C05: could not dump definitions: " + (r.stdout + r.stderr)[-1500:])
+    # 2. build the generator from the current tree and run it per definition
+    genbin = _os.path.join(work, "participle-gen")
+    r = _sp.run(["go", "build", "-o", genbin, "."], env=GOENV, cwd=_os.path.join(REPO, "cmd", "participle"), text=True, capture_output=True)
+    if r.returncode != 0:
+        return dict(problem="C05: generator does not build: " + r.stderr[-1500:])
+    overlay = {}
+    violations = []
+    ok_defs = []
+    for d in defs:
+        out = _os.path.join(work, "gen_%s.go" % d)
+        with open(_os.path.join(work, d + ".json")) as fin:
+            r = _sp.run([genbin, "gen", "lexer", "zzverifgen", "--name", d], stdin=fin, env=GOENV, text=True, capture_output=True)
+        if r.returncode != 0:
+            violations.append(dict(harness="generator:" + d, outcome="panic" if "panic:" in r.stderr else "assert",
+                                   msg="C05: the generator fails on a definition of its supported class: " + r.stderr.strip().splitlines()[0][:300] if r.stderr.strip() else "generator failed",
+                                   where="cmd/participle gen lexer", inputs=[], definition=open(_os.path.join(work, d + ".json")).read()))
+            continue
+        open(out, "w").write(r.stdout)
+        overlay[_os.path.join(REPO, GENPKG_DIR, "gen_%s.go" % d)] = out
+        ok_defs.append(d)
+    # 3. qualified catalogue + entry points
+    q = cat_src
+    q = _re.sub(r"^package lexer\b", 'package zzverifgen\n\nimport "github.com/alecthomas/participle/v2/lexer"', q, flags=_re.M)
+    q = _re.sub(r"\bRules\b", "lexer.Rules", q)
+    q = _re.sub(r"\b(Push|Pop|Return|Include)\(", r"lexer.\1(", q)
+    qf = _os.path.join(work, "qualified_lexdefs.go")
+    open(qf, "w").write(q)
+    overlay[_os.path.join(REPO, GENPKG_DIR, "zz_verif_lexdefs.go")] = qf
+    entries = "package zzverifgen\n\n"
+    for d in ok_defs:
+        entries += "func VH_C05_%s() { vhC05(vhDef%s(), %sLexer) }\n" % (d, d, d)
+        entries += "func VH_C07_Gen_%s() { vhC07Gen(%sLexer) }\n" % (d, d)
+    entries += "\nfunc VH_C05_Canary() {\n\tin := vhInput()\n\tvAssert(len(in) < 2, \"canary: must fail\")\n}\n"
+    entries += "\nfunc VH_C07_Gen_Canary() {\n\tin := vhInput()\n\tvAssert(len(in) < 2, \"canary: must fail\")\n}\n"
+    ef = _os.path.join(work, "zz_verif_gen_entries.go")
+    open(ef, "w").write(entries)
+    # the Run class copies spec["files"] from /verif/harness; extra files go through extra_overlay
+    overlay[_os.path.join(REPO, GENPKG_DIR, "zz_verif_gen_entries.go")] = ef
+    return dict(spec=dict(extra_overlay=overlay, entry_file=ef), violations=violations)
+
+
+GENERATORS["c05"] = _gen_c05
